@@ -124,6 +124,24 @@ IMMUTABLE_CTORS = {"builtins.tuple": "tuple", "builtins.frozenset": "frozenset",
 NOT_DEEPCOPYABLE = {"MappingProxyType"}
 
 
+def _own_instance_of_unrelated_class(an: Analysis, fi: FunctionInfo, call: ast.Call) -> bool:
+    """`object.__setattr__(self, ...)` inside a method of a class that neither is, derives from, nor is a base of a State
+    class of the package: the receiver is an instance of that class."""
+    prog = an.prog
+    sn = prog.self_name(fi)
+    if fi.cls is None or sn is None or sn[1] or not call.args or not is_name(call.args[0], sn[0]):
+        return False
+    stq = prog.cls(ST).qualname
+    if any(c.qualname == stq for c in prog.mro(fi.cls)):
+        return False
+    for c in prog.classes.values():
+        m = [x.qualname for x in prog.mro(c)]
+        if fi.cls.qualname in m and stq in m:
+            return False
+    # the name `self` is not re-bound in the method
+    return not any(isinstance(x, ast.Name) and x.id == sn[0] and isinstance(x.ctx, ast.Store) for x in fi.own_nodes())
+
+
 def raw_attribute_writes(an: Analysis):
     """object.__setattr__/__delattr__ calls anywhere; vars(x)[..] / x.__dict__ writes in haiway.state."""
     out = []
@@ -132,6 +150,8 @@ def raw_attribute_writes(an: Analysis):
             if isinstance(n, ast.Call):
                 d = dotted(n.func)
                 if d in ("object.__setattr__", "object.__delattr__", "super().__setattr__"):
+                    if _own_instance_of_unrelated_class(an, fi, n):
+                        continue  # a frozen helper class initialising itself: the object written is never a State
                     out.append((fi, n, d))
                 elif isinstance(n.func, ast.Attribute) and n.func.attr in ("__setattr__", "__delattr__") and isinstance(n.func.value, ast.Call) and is_name(n.func.value.func, "super"):
                     out.append((fi, n, "super().__setattr__"))
